@@ -2,7 +2,7 @@
 import re
 from .. import epcheck, oracles
 
-THEOREMS = ["C01_step", "C01_src", "C01_src_total", "C01_annual"]
+THEOREMS = ["C01_step", "C01_src", "C01_src_total", "C01_src_total_any_values", "C01_annual"]
 CONE = re.compile(r"^balance_cr/[A-Z0-9]+/(f_match|used|prod|exp|del)/")
 
 
